@@ -384,7 +384,7 @@ func ruleB4(r *Run) {
 			names := 0
 			ast.Inspect(loop.Body, func(m ast.Node) bool {
 				if call, ok := m.(*ast.CallExpr); ok {
-					if f := Callee(info, call); f != nil && f.Name() == "appendName" {
+					if f := Callee(info, call); f != nil && refName(f.Name()) == "appendName" {
 						names++
 					}
 				}
